@@ -75,6 +75,13 @@ class Must:
         self.sym = sym or Sym(fn, fb)
         self.cfg = cfg or CFG(fn)
         self._memo = {}
+        self._rmemo = {}
+
+    def _reach(self, b):
+        r = self._rmemo.get(b)
+        if r is None:
+            r = self._rmemo[b] = self.cfg.reach(b)
+        return r
 
     # ---------------------------------------------------------------- raw edge facts
     def switch_fact(self, d, succs):
@@ -127,7 +134,7 @@ class Must:
         out = []
         for d, vals, comp in self.raw_at(p):
             out.extend(self.normalise(d, vals, comp))
-        out = self._expand_phi(out, _seen if _seen is not None else {p})
+        out = self._expand_phi(out, _seen if _seen is not None else {p}, at=p)
         extra = []
         for a in out:
             b = canon_okness(a)
@@ -135,7 +142,7 @@ class Must:
                 extra.append(b)
         return out + extra
 
-    def _expand_phi(self, atoms, seen):
+    def _expand_phi(self, atoms, seen, at=None, def_facts=True):
         """An atom about a value merged from several definitions (`phi`) that only ONE of the definitions can satisfy
         implies everything that held where that definition was made (e.g. `check()?` after the helper `check` was
         inlined: the result is Ok only when it was assigned in the block guarded by the helper's test)."""
@@ -147,6 +154,12 @@ class Must:
             if len(phi) < 4 or len(phi[2]) != len(phi[3]):
                 continue
             verdicts = [_alt_verdict(alt, a) for alt in phi[2]]
+            if at is not None:
+                # a definition whose block cannot reach this point (e.g. after jump threading sent it elsewhere) is not
+                # a candidate here
+                for j, db_ in enumerate(phi[3]):
+                    if isinstance(db_, int) and db_ != at and at not in self._reach(db_):
+                        verdicts[j] = False
             if verdicts.count(True) + verdicts.count(None) != 1 or verdicts.count(None) > 1:
                 continue
             if None in verdicts and True in verdicts:
@@ -165,7 +178,7 @@ class Must:
                 spec = [(a[0], alt)]
             else:
                 spec = [("variant", alt, a[2], a[3])]
-            for b in spec + self.atoms_at(db, seen):
+            for b in spec + (self.atoms_at(db, seen) if def_facts else []):
                 if b not in out:
                     out.append(b)
         return out
@@ -176,7 +189,9 @@ class Must:
         if t["k"] != "switch":
             return []
         f = self.switch_fact(d, {s})
-        return self.normalise(d, f[2], f[3])
+        base = self.normalise(d, f[2], f[3])
+        # plus the edge's own atoms specialised to the one definition that can be tested here
+        return self._expand_phi(base, {d}, at=d, def_facts=False)
 
     def normalise(self, d, vals, comp):
         t = self.cfg.blocks[d]["term"]
